@@ -22,18 +22,21 @@ import tempfile
 
 from ..refmodels import c06_dimacs as ref
 
-RULE = ("writer: hand-built CNFs (0..12 variables, empty formula, empty clauses, unused variables, repeated/"
-        "opposite literals, CNF/CNFio classes) with header keys/values and variable names from a hostile "
-        "alphabet (tab, NUL, non-ASCII, '%', 'p cnf 1 1', 'c', empty, format braces, non-strings; a separate "
-        "stream with LF/CR/CRLF inside them), ~50 family command lines x transformation chains, graph names "
-        "read from kthlist files; each formula through header x varnames (4 combinations) and the routes "
-        "to_dimacs / to_file(StringIO|path|open file|stdout|misleading extension+fileformat) / cnfgen "
-        "-q|-v|--varnames|-o / kthlist2pebbling, read back through from_file(StringIO|path|open file|stdin), "
-        "`cnfgen dimacs`, `cnfshuffle -p -v -c`.  reader: writer-shaped texts and ~40 kinds of mutation of "
-        "them (truncation, line drop/duplicate/swap/join/split, token -> garbage/0/n+1/-n-1/40-digit/odd "
-        "integer, problem line moved/doubled/miscounted, CRLF, blank and comment lines, missing final 0), "
-        "grammar-generated line sequences, character junk, undecodable bytes.  One evaluation = one text "
-        "through one route judged against the reference; distinct = (route, flags, digest of the text); "
+RULE = ("writer: hand-built CNFs (0..40 variables, empty formula, empty clauses, unused variables, repeated/"
+        "opposite literals, classes CNF/CNFio, built through the constructor / add_clause / add_clauses_from) with "
+        "header keys/values and variable names from a hostile alphabet (tab, NUL, ESC, non-ASCII, BOM, VT/FF/NEL/LS, "
+        "'%', 'p cnf 1 1', 'c', empty, format braces, 300 characters, non-strings; a separate stream with LF/CR/CRLF "
+        "inside them), 61 family command lines alone and with 1 (quick) / 4 (thorough) light transformation chains, "
+        "10 small families x 19 chains, graph names read from kthlist files, hostile input file names; each formula "
+        "through header x varnames (4 combinations) and the routes to_dimacs / to_file(StringIO | path | open file | "
+        "stdout | misleading extension + fileformat) / cnfgen [-q|-v|--varnames|-o] / kthlist2pebbling, read back "
+        "through from_file(StringIO | path | open file | stdin), `cnfgen -q dimacs`, `cnfshuffle -p -v -c`.  "
+        "reader: writer-shaped texts and 45 kinds of mutation of them (truncation, line drop/duplicate/swap/join/"
+        "split, token -> garbage / 0 / n+1 / -n-1 / 40 and 5000 digits / odd integer, problem line moved / doubled / "
+        "miscounted / malformed, CRLF, CR, blank and comment lines, missing final 0, inserted and deleted characters; "
+        "a quarter mutated twice), grammar-generated line sequences, character junk, undecodable bytes, through "
+        "from_file(StringIO) and in turn path / open file / stdin / the two command line tools.  One evaluation = one "
+        "text through one route judged against the reference; distinct = (route, flags, digest of the text [, family]); "
         "trivial = formula without clauses (writer) / text without a non-blank line (reader).")
 ASSUMPTIONS = [
     "the reference scanner/reader vmon.refmodels.c06_dimacs (self-checked on 30 fixed texts incl. the doctest "
